@@ -4,138 +4,52 @@ Exhaustive single-step scenarios (forest, current c, answering S on path(c),
 target T, chain of initial transitions below T) on every host, compared with
 the reference model; plus the same step taken a second time from the reached
 configuration (start-from-non-initial-state differential)."""
-import time
-from mc.common import Result, Violation, pmap, seed, ncpu
-from mc import forests as F, hsmrun
 import random
+from mc.common import Result, seed
+from mc import forests as F
+from mc.hsmcheck import sweep, VARIANTS_ALL, mixed_style, replay_generic
 
 PID = "C01"
-HOSTS = [("plain", "plain"), ("instrumented", "spied"), ("queued", "spied"), ("queued", "plain")]
 
 
-def scenarios(parent):
+def gen(parent):
     n = len(parent)
     for c in range(n):
-        pc = F.path(parent, c)
-        for S in pc:
+        for S in F.path(parent, c):
             for Tt in range(n):
                 for chain in F.chains(parent, Tt):
                     if c in chain[:-1]:
                         continue
-                    yield c, S, Tt, chain
-
-
-def mixed_style(n):
-    return tuple((5, 3, 6, 0, 7, 1, 2, 4, 7, 0, 5, 3)[i % 12] for i in range(n))
-
-
-def work(task):
-    parent_list, hosts, styles = task
-    nscen = ntrans = 0
-    viol = []
-    states = set()
-    nontrivial = set()
-    sample = None
-    for parent in parent_list:
-        n = len(parent)
-        for (c, S, Tt, chain) in scenarios(parent):
-            init = {chain[i]: chain[i + 1] for i in range(len(chain) - 1)}
-            react = {(S, "A"): ("T", Tt)}
-            base = {"parent": parent, "init": init, "react": react, "start": c, "events": ["A", "A"]}
-            ref = None
-            for (host, fam) in hosts:
-                for style in styles:
-                    spec = dict(base, host=host, family=fam, style=style(n) if style else None)
-                    if ref is None:
-                        ref = hsmrun.run_ref(spec)
-                    impl = hsmrun.run_impl(spec)
-                    nscen += 1
-                    ntrans += len(impl) - 1
-                    d = hsmrun.first_diff(impl, ref)
-                    if d is not None:
-                        k, field, a, b = d
-                        key = "C01/%s/%s" % ("step" if k else "start", field)
-                        viol.append(Violation(key, "%s differs at step %d: impl=%r ref=%r" % (field, k, a, b),
-                                              hsmrun.dump(spec)).to_json())
-            states.add((parent, tuple(sorted(init.items())), c))
-            states.add((parent, tuple(sorted(init.items())), ref[1]["state"]))
-            if len(chain) > 1 or len(F.path(parent, Tt)) > 1:
-                nontrivial.add((parent, c, S, Tt, chain))
-            if sample is None and len(chain) > 2:
-                sample = {"spec": hsmrun.dump(dict(base, host="plain", family="plain", style=None)),
-                          "expected": ref}
-    return nscen, ntrans, viol[:50], len(viol), len(states), len(nontrivial), sample
+                    init = {chain[i]: chain[i + 1] for i in range(len(chain) - 1)}
+                    yield ({"parent": parent, "init": init, "react": {(S, "A"): ("T", Tt)},
+                            "start": c, "events": ["A", "A"]},
+                           len(chain) > 1 or parent[Tt] >= 0)
 
 
 def run(tier):
     res = Result(PID)
-    N = 8 if tier == "quick" else 9
+    N, nh, maxd = (8, 6, 11) if tier == "quick" else (9, 7, 14)
     rnd = random.Random(seed())
-    tasks = []
-    # all forest shapes up to N on the plain host (cheapest, the processor core);
-    # the wrapped hosts share the same dispatch/trans_ code, covered up to N-2 (quick) .
-    allf = []
-    for n in range(1, N + 1):
-        allf += list(F.forests(n))
+    allf = [f for n in range(1, N + 1) for f in F.forests(n)]
     rnd.shuffle(allf)
-    nh = 6 if tier == "quick" else 7
     small = [f for f in allf if len(f) <= nh]
-    # weight chunks by expected cost (grows steeply with n)
-    def split(fl, k):
-        fl = sorted(fl, key=len, reverse=True)
-        buckets = [[] for _ in range(k)]
-        cost = [0] * k
-        for f in fl:
-            i = cost.index(min(cost))
-            buckets[i].append(f)
-            cost[i] += 6 ** len(f)
-        return [b for b in buckets if b]
-    jobs = ncpu() * 3
-    for b in split(allf, jobs):
-        tasks.append((b, [HOSTS[0]], [None]))
-    for b in split(small, jobs):
-        tasks.append((b, HOSTS[1:], [None]))
-        tasks.append((b, [HOSTS[0], HOSTS[1]], [mixed_style]))
-    spine_f = []
-    maxd = 12 if tier == "quick" else 14
-    for d in range(9, maxd + 1):
-        spine_f += F.spines(d, 0)
+    spine_f = [f for d in range(9, maxd + 1) for f in F.spines(d, 0)]
     if tier != "quick":
-        for d in range(9, 12):
-            spine_f += F.spines(d, 1)
-    for b in split(spine_f, jobs):
-        tasks.append((b, [HOSTS[0]], [None]))
-    t0 = time.time()
-    out = pmap(work, tasks)
-    ev = sum(o[0] for o in out)
-    res.coverage = {
-        "states": sum(o[4] for o in out),
-        "transitions": sum(o[1] for o in out),
-        "traces_validated_against_impl": ev,
-        "evaluations": ev,
-        "distinct_nontrivial": sum(o[5] for o in out),
-        "rule": "every (forest shape<=%d states, current c, answering S on path(c), target T, init chain below T) "
-                "x hosts; non-trivial = target nested or init chain non-empty; spines depth 9..%d" % (N, maxd),
-        "samples": [o[6] for o in out if o[6]][:3],
+        spine_f += [f for d in range(9, 12) for f in F.spines(d, 1)]
+    sweep(res, [(gen, allf, VARIANTS_ALL[:1], [None]),
+                (gen, small, VARIANTS_ALL[1:], [None]),
+                (gen, small, VARIANTS_ALL[:2], [mixed_style]),
+                (gen, spine_f, VARIANTS_ALL[:1], [None])])
+    res.coverage.update({
+        "rule": "every (forest shape<=%d states, current c, answering S on path(c), target T, init chain below T), "
+                "two consecutive steps each, x hosts; non-trivial = target nested or init chain non-empty; "
+                "plus spine charts of depth 9..%d" % (N, maxd),
         "bounds": {"forest_states_plain_host": N, "forest_states_other_hosts": nh, "spine_depth": maxd},
-        "exhaustive": True,
-    }
+        "exhaustive": True})
     res.assumptions = ["processor is memoryless between steps (checked: temp.fun is state.fun after every step)",
                        "sibling order/naming irrelevant: processor follows parent links only"]
-    for o in out:
-        for v in o[2]:
-            res.add(Violation.from_json(v))
     return res
 
 
 def replay(witness):
-    res = Result(PID)
-    spec = hsmrun.norm(witness)
-    impl, ref = hsmrun.run_impl(spec), hsmrun.run_ref(spec)
-    d = hsmrun.first_diff(impl, ref)
-    print("impl:", impl)
-    print("ref: ", ref)
-    if d:
-        k, field, a, b = d
-        res.add(Violation("C01/%s/%s" % ("step" if k else "start", field), "%s differs at step %d" % (field, k), witness))
-    return res
+    return replay_generic(PID, witness)
